@@ -15,6 +15,13 @@ A case is a dict (self-contained, JSON-serialisable):
           form = marshal_common.pv_form of the Python value; exn = [class name, ['absent']|['none']|['str', name], text]
   props   present when the call reaches one of DBusObject's own org.freedesktop.DBus.Properties methods
           (whose outcome is theirs, not `out`): the function id expected to run
+  steps   (sequence cases) [{'raw', 'call', 'out', 'props'?}, ...]: several calls handled one after the other by
+          ONE handler on ONE set of freshly built classes (raw / call / out / props of the case itself are then
+          absent).  Every step is compared with the model and judged by the Coq verdict on its own: the model
+          is a function of exports and call (Props/C10.v C10_calls_independent), so whatever the library keeps
+          from one call to the next (_dbusIfaceCache on the class, _dbusCaller on the function) must not show.
+
+The Python classes of a case are built afresh for every case (also on replay), so nothing leaks between cases.
 
 The handler's connection is a stub recording sendMessage; every reply is re-parsed from its wire bytes."""
 import inspect
@@ -204,7 +211,7 @@ def make_func(pyname, fid, caller, E):
 
     def _rec(fid, args, cl):
         args = [a for a in args if a is not _MISSING]
-        PLAN.log.append([fid, [mc.pv_form(a) for a in args], None if cl is _NOCALLER else [cl]])
+        PLAN.log.append([fid, [mc.pv_form(a) for a in args], None if (cl is _NOCALLER or cl is _MISSING) else [cl]])     # _MISSING: wanted, not passed
         return perform(E)
 
     _NOCALLER = object()
@@ -216,11 +223,8 @@ def make_func(pyname, fid, caller, E):
     return f
 
 
-def build_world(case, E):
-    key = json.dumps([case['ifaces'], case['classes'], case['objects']], sort_keys=True)
-    w = E['worlds'].get(key)
-    if w is not None:
-        return w
+def fresh_classes(case, E):
+    """the Python classes of a case, built anew (the library caches on classes and functions)"""
     objects = E['objects']
     ifobjs = [E['DBusInterface'](n, *[E['Method'](m, i, o) for m, i, o in ms], noRegister=True)
               for n, ms in case['ifaces']]
@@ -236,6 +240,17 @@ def build_world(case, E):
                 f = objects.dbusMethod(deco[0], deco[1])(f)
             ns[pyname] = f
         classes.append(type('C%d' % k, bases, ns))
+    return classes
+
+
+def build_world(case, E):
+    """the model's view of a case (cached) and one set of classes used by the generators only"""
+    key = json.dumps([case['ifaces'], case['classes'], case['objects']], sort_keys=True)
+    w = E['worlds'].get(key)
+    if w is not None:
+        return w
+    objects = E['objects']
+    classes = fresh_classes(case, E)
     n = len(classes)
     # the model's view: classes (user classes, then DBusObject), objects as MRO index lists
     mcls = []
@@ -279,15 +294,23 @@ def obs_reply(sent, E):
     return [kind, name, r.reply_serial, getattr(r, 'destination', None), sig, body]
 
 
+def steps_of(case):
+    return case['steps'] if case.get('steps') else [case]
+
+
 def run_impl(case, E):
-    """-> [escaped, replies now, invocations, replies after the Deferred fired]"""
-    w = build_world(case, E)
+    """-> per step [escaped, replies now, invocations, replies after the Deferred fired]"""
+    classes = fresh_classes(case, E)
     conn = E['Conn']()
     handler = E['objects'].DBusObjectHandler(conn)
     for (path, ci) in case['objects']:
-        o = w['classes'][ci](path)
+        o = classes[ci](path)
         handler.exportObject(o)
     del conn.sent[:]
+    return [run_step(step, handler, conn, E) for step in steps_of(case)]
+
+
+def run_step(case, handler, conn, E):
     msg = E['message'].parseMessage(bytes(case['raw']), [])
     PLAN.log = []
     PLAN.out = case['out']
@@ -334,6 +357,7 @@ def run_impl(case, E):
         later = [obs_reply(r, E) for r in conn.sent]
         if d.called and getattr(d, 'result', None) is not None and hasattr(d.result, 'trap'):
             d.addErrback(lambda f: None)        # consumed: keep the log quiet
+        del conn.sent[:]
     invs = list(PLAN.log)
     return [escaped, now, invs, later]
 
@@ -465,6 +489,9 @@ class PerSignature(object):
 
 def norm_case(c):
     c = dict(c)
+    if c.get('steps'):
+        c['steps'] = [norm_case(st) for st in c['steps']]
+        return c
     c['raw'] = bytes(c['raw'])
 
     def fx(f):
@@ -484,55 +511,70 @@ def evaluate(ctx, cases, res):
     lines = []
     for c in cases:
         w = build_world(c, E)
-        io = run_impl(c, E)
-        impls.append(io)
-        iobs = [io[0], [reply_sexp(r) for r in io[1]], [inv_sexp(v) for v in io[2]], [reply_sexp(r) for r in io[3]]]
-        lines.append('(10 %s %s %s %s %s %s)' % (w['model_classes'], w['model_objects'], common.dump(c['raw']),
-                                                 common.dump(out_sexp(c['out'])), common.dump(later_sexp(c['out'])),
-                                                 common.dump(iobs)))
+        ios = run_impl(c, E)
+        impls.append(ios)
+        for st, io in zip(steps_of(c), ios):
+            iobs = [io[0], [reply_sexp(r) for r in io[1]], [inv_sexp(v) for v in io[2]], [reply_sexp(r) for r in io[3]]]
+            lines.append('(10 %s %s %s %s %s %s)' % (w['model_classes'], w['model_objects'], common.dump(st['raw']),
+                                                     common.dump(out_sexp(st['out'])), common.dump(later_sexp(st['out'])),
+                                                     common.dump(iobs)))
     outs = common.run_model(lines)
     vres = PerSignature(res)
-    st = res.extra.setdefault('distribution', {})
+    dist = res.extra.setdefault('distribution', {})
     lv = res.extra.setdefault('legacy_variants_distinguished', {'parse flags ignored (D04)': 0, 'error text not a DBus string (D30)': 0})
 
     def bump(k):
-        st[k] = st.get(k, 0) + 1
-    for c, io, mo in zip(cases, impls, outs):
-        if mo == [-1]:
-            raise RuntimeError('model rejected input %r' % (c.get('call'),))
-        if mo[0] == 0:
-            res.count(c, nontrivial=False)
-            res.disagree(c, io, ['model could not parse the call', mo[1]])
-            continue
-        _, wf, cur, leg_flags, leg_text, (v_impl, v_model), target, cands, unmodelled = mo
-        if unmodelled:
-            # the returned value is one Model/Marshal.v declares unmodelled (an int where a double is declared ...)
-            res.count(c, nontrivial=False)
-            bump('encoder-unmodelled (not compared)')
-            continue
-        cur = m_obs(cur)
-        ci, cm = canon(io, cur, c)
-        res.traces += 1
-        res.count(c, nontrivial=bool(io[2]) or bool(io[1]) or bool(io[3]))
-        bump('target:%s' % ['no-object', 'no-method', 'bad-args', 'method', 'built-in'][target])
-        bump('outcome:%s' % (c['out'][0] if c['out'][0] != 'deferred' else 'deferred-' + (c['out'][1][0] if c['out'][1] else 'open')))
-        if io[2]:
-            bump('invoked')
-        if m_obs(leg_flags) != cur:
-            lv['parse flags ignored (D04)'] += 1
-        if m_obs(leg_text) != cur:
-            lv['error text not a DBus string (D30)'] += 1
-        if ci != cm:
-            res.disagree(c, ci, cm)
-        if wf:
-            if v_model != 0:
-                res.disagree(c, ['spec verdict on the model observation', v_model], ['expected', 0], what='spec')
-            if v_impl != 0:
-                why, sig = VERDICTS.get(v_impl, ('verdict %r' % v_impl, 'verdict:%r' % v_impl))
-                vres.violate(c, '%s; call %r outcome %r observed [escaped, replies, invocations, later replies] = %r'
-                             % (why, c.get('call'), c['out'], io), sig)
-        else:
-            bump('outside-hypotheses')
+        dist[k] = dist.get(k, 0) + 1
+    pos = 0
+    for c, ios in zip(cases, impls):
+        steps = steps_of(c)
+        seq = bool(c.get('steps'))
+        if seq:
+            bump('sequences')
+        res.count(c, nontrivial=any(bool(io[1]) or bool(io[2]) or bool(io[3]) for io in ios))
+        res.evaluations += len(steps) - 1
+        for k, (st, io) in enumerate(zip(steps, ios)):
+            mo = outs[pos]
+            pos += 1
+            # what is reported for a failing step: the sequence up to and including it
+            rc = dict(c, steps=steps[:k + 1]) if seq else c
+            where = 'step %d of %d: ' % (k + 1, len(steps)) if seq else ''
+            if mo == [-1]:
+                raise RuntimeError('model rejected input %r' % (st.get('call'),))
+            if mo[0] == 0:
+                res.disagree(rc, io, ['model could not parse the call', mo[1]])
+                continue
+            _, wf, cur, leg_flags, leg_text, (v_impl, v_model), target, cands, unmodelled = mo
+            if unmodelled:
+                # the returned value is one Model/Marshal.v declares unmodelled (an int where a double is declared ...)
+                bump('encoder-unmodelled (not compared)')
+                continue
+            cur = m_obs(cur)
+            ci, cm = canon(io, cur, st)
+            res.traces += 1
+            if seq:
+                bump('sequence-steps')
+            bump('target:%s' % ['no-object', 'no-method', 'bad-args', 'method', 'built-in'][target])
+            bump('outcome:%s' % (st['out'][0] if st['out'][0] != 'deferred' else 'deferred-' + (st['out'][1][0] if st['out'][1] else 'open')))
+            if io[2]:
+                bump('invoked')
+            if (st.get('call') or {}).get('xfield'):
+                bump('unknown-header-field')
+            if m_obs(leg_flags) != cur:
+                lv['parse flags ignored (D04)'] += 1
+            if m_obs(leg_text) != cur:
+                lv['error text not a DBus string (D30)'] += 1
+            if ci != cm:
+                res.disagree(rc, [where + 'implementation', ci], [where + 'model', cm])
+            if wf:
+                if v_model != 0:
+                    res.disagree(rc, ['spec verdict on the model observation', v_model], ['expected', 0], what='spec')
+                if v_impl != 0:
+                    why, sig = VERDICTS.get(v_impl, ('verdict %r' % v_impl, 'verdict:%r' % v_impl))
+                    vres.violate(rc, '%s%s; call %r outcome %r observed [escaped, replies, invocations, later replies] = %r'
+                                 % (where, why, st.get('call'), st['out'], io), sig)
+            else:
+                bump('outside-hypotheses')
 
 
 # ---------------------------------------------------------------------------------------------
@@ -744,7 +786,9 @@ def ideal_ifaces(w, ci, E):
     return out
 
 
-def build_call(E, path, member, iface, sig, body_forms, sender, expect):
+def build_call(E, path, member, iface, sig, body_forms, sender, expect, xfield=None):
+    """xfield = [code, 's' | 'u', value, 'front' | 'mid']: a header field with a code the library does not know
+    (to be ignored, DBus spec), placed first or just before the DESTINATION / SENDER / SIGNATURE fields"""
     body = [from_form(f, E) for f in body_forms] if sig else None
     m = E['message'].MethodCallMessage(path, member, interface=iface or None, signature=sig, body=body, expectReply=expect)
     if sender is not None or iface == '':
@@ -753,7 +797,18 @@ def build_call(E, path, member, iface, sig, body_forms, sender, expect):
         if iface == '':
             m.interface = ''          # an empty interface header field (the constructor would refuse it)
         m._marshal(False)
-    return bytes(m.rawMessage)
+    if xfield is None:
+        return bytes(m.rawMessage)
+    code, kind, value, where = xfield
+    hdrs = [list(h) for h in m.headers]
+    pos = 0
+    if where == 'mid':
+        pos = next((k for k, h in enumerate(hdrs) if h[0] in (6, 7, 8)), len(hdrs))
+    hdrs.insert(pos, [code, value if kind == 's' else E['marshal'].UInt32(value)])
+    raw0 = bytes(m.rawMessage)
+    hdr = b''.join(E['marshal'].marshal('yyyyuua(yv)', [raw0[0], raw0[1], raw0[2], raw0[3], m.bodyLength, m.serial, hdrs],
+                                        lendian=True)[1])
+    return hdr + b'\0' * (-len(hdr) % 8) + bytes(m.rawBody)
 
 
 def gen_call(rng, w, E):
@@ -817,7 +872,15 @@ def gen_call(rng, w, E):
     sigarg = msig if (msig or rng.random() < 0.5) else None
     call = {'path': path, 'iface': iface if with_iface else ('' if rng.random() < 0.06 else None), 'member': member,
             'sig': sigarg, 'body': body, 'sender': sender, 'expect': expect}
+    if rng.random() < 0.15:
+        call['xfield'] = gen_xfield(rng)
     return call, sig_out, props
+
+
+def gen_xfield(rng):
+    kind = rng.choice('su')
+    return [rng.choice([16, 10, 42, 200, 255]), kind, 'junk' if kind == 's' else rng.choice([0, 5, 2 ** 32 - 1]),
+            rng.choice(['front', 'mid', 'mid'])]
 
 
 def props_fid(member, E):
@@ -836,7 +899,7 @@ def props_out(member):
 
 def make_case(w, call, out, E, props=None):
     raw = bytearray(build_call(E, call['path'], call['member'], call['iface'], call['sig'], call['body'], call['sender'],
-                               call['expect']))
+                               call['expect'], call.get('xfield')))
     # other header flag bits (NO_AUTO_START 0x2, ALLOW_INTERACTIVE_AUTHORIZATION 0x4) in combination with the
     # no-reply bit: whether a reply is expected depends on bit 0x1 alone
     raw[2] |= (0, 0, 2, 4, 6)[(len(raw) + raw[8] + 3 * len(call['member'])) % 5]
@@ -908,6 +971,8 @@ def gen_small(ctx, E, stride):
                                     continue
                                 call = {'path': path, 'iface': iface, 'member': member, 'sig': sig, 'body': body,
                                         'sender': SENDER, 'expect': expect}
+                                if k % 7 == 0:
+                                    call['xfield'] = [16, 's', 'junk', 'mid'] if k % 2 else [16, 'u', 5, 'front']
                                 yield make_case(w, call, out, E)
 
 
@@ -925,6 +990,75 @@ def gen_builtin(ctx, E):
                     yield make_case(w, call, ['value', [10]], E, props)
 
 
+def as_sequence(w, cases):
+    """single-call cases on one world -> one sequence case"""
+    return {'ifaces': w['ifaces'], 'classes': w['classes'], 'objects': w['objects'],
+            'steps': [{k: c[k] for k in ('raw', 'call', 'out', 'props') if k in c} for c in cases]}
+
+
+def caller_worlds():
+    """one member name (Who) on two interfaces of one class, the two bindings differing in style and in whether
+    they ask for dbusCaller; two objects of that class and one of a subclass overriding one implementation"""
+    A = ['org.ex.A', [['Who', 's', 's'], ['Bar', '', '']]]
+    B = ['org.ex.B', [['Who', 's', 's']]]
+    for ca in (False, True):
+        for cb in (False, True):
+            for style in range(4):
+                if style == 0:        # two decorated functions
+                    attrs = [['impl_a', 1, ['org.ex.A', 'Who'], ca], ['impl_b', 2, ['org.ex.B', 'Who'], cb]]
+                elif style == 1:      # a decorated dbus_Who tied to A, a decorated function for B
+                    attrs = [['dbus_Who', 1, ['org.ex.A', 'Who'], ca], ['impl_b', 2, ['org.ex.B', 'Who'], cb]]
+                elif style == 2:      # declared in the other order
+                    attrs = [['impl_b', 2, ['org.ex.B', 'Who'], cb], ['impl_a', 1, ['org.ex.A', 'Who'], ca]]
+                else:                 # a plain dbus_Who serving both interfaces, and a decorated one that it hides
+                    attrs = [['dbus_Who', 1, None, ca], ['impl_b', 2, ['org.ex.B', 'Who'], cb]]
+                yield {'ifaces': [A, B],
+                       'classes': [{'bases': [], 'ifaces': [0, 1], 'attrs': attrs + [['dbus_Bar', 3, None, cb]]},
+                                   # the subclass overrides impl_b (undecorated, other dbusCaller wish)
+                                   {'bases': [0], 'ifaces': None, 'attrs': [['impl_b', 4, None, not cb]]}],
+                       'objects': [['/a', 0], ['/b', 0], ['/sub', 1]]}
+
+
+def gen_caller_sequences(ctx, E, n3):
+    """every 2-call sequence over (object, interface) on the caller worlds, and n3 random 3-call ones per world"""
+    rng = ctx.rng
+    targets = [(p, i) for p in ('/a', '/b', '/sub') for i in ('org.ex.A', 'org.ex.B', None)]
+
+    def one(w, p, i, k):
+        sender = ':1.%d' % (10 + k)
+        call = {'path': p, 'iface': i, 'member': 'Who', 'sig': 's', 'body': [[3, b'hi']], 'sender': sender, 'expect': True}
+        return make_case(w, call, ['value', [3, ('r%d' % k).encode()]], E)
+    for w in caller_worlds():
+        for t1 in targets:
+            for t2 in targets:
+                yield as_sequence(w, [one(w, t1[0], t1[1], 0), one(w, t2[0], t2[1], 1)])
+        for _ in range(n3):
+            ts = [rng.choice(targets) for _ in range(3)]
+            yield as_sequence(w, [one(w, t[0], t[1], k) for k, t in enumerate(ts)])
+
+
+def gen_random_sequences(ctx, count, E):
+    """2-3 random calls on one random world (worlds as in gen_random; an object path may be exported from the same
+    class as another one)"""
+    rng = ctx.rng
+    made = 0
+    while made < count:
+        w = gen_world(rng, E)
+        if rng.random() < 0.5 and len(w['objects']) < len(PATHS):
+            # a second object of the class of the first
+            w['objects'] = w['objects'] + [[[p for p in PATHS if p not in [q for q, _ in w['objects']]][0], w['objects'][0][1]]]
+        if not world_ok(w, E):
+            continue
+        for _ in range(rng.choice([2, 4])):
+            cases = []
+            for _ in range(rng.choice([2, 3, 3])):
+                call, sig_out, props = gen_call(rng, w, E)
+                out = gen_out(rng, sig_out if sig_out is not None else gen_sig(rng), E)
+                cases.append(make_case(w, call, out, E, props))
+            yield as_sequence(w, cases)
+            made += 1
+
+
 def run(ctx, res):
     E = env()
     nrand = ctx.n(2000, 40000)
@@ -937,7 +1071,12 @@ def run(ctx, res):
                 'invalid, built-ins and Properties, fed as wire bytes through parseMessage; outcomes value / tuple / unencodable / '
                 'raise (valid, invalid, absent dbusErrorName; texts with NUL) / Deferred already fired or failed / Deferred fired '
                 'or failed later / never; (b) three fixed small worlds x every call of a grid (paths x 4 interfaces x 4 members x '
-                '3 signatures x expect x 14 outcomes), every %d-th case in this tier; (c) the built-in calls at 4 paths. '
+                '3 signatures x expect x 14 outcomes), every %d-th case in this tier; (c) the built-in calls at 4 paths; (d) SEQUENCES of calls on one handler and one set of '
+                'classes, each call judged on its own: every 2-call sequence (and random 3-call ones) over 3 objects (two of one '
+                'class, one of a subclass overriding an implementation) x interface A / B / none on 16 worlds where member Who sits '
+                'on two interfaces bound in 4 styles with all combinations of dbusCaller wishes, and random 2-3 call sequences '
+                'on random worlds (400 quick / 6000 thorough); about 15 %% of the random calls and every 7th grid call carry a '
+                'header field with an unknown code before the DESTINATION/SENDER/SIGNATURE fields or first. '
                 'A case is non-trivial if a reply was sent or user code ran; distinct by hash' % (nrand, len(ARG_TYPES), stride))
     evaluate(ctx, list(gen_builtin(ctx, E)), res)
     evaluate(ctx, list(gen_small(ctx, E, stride)), res)
@@ -945,6 +1084,15 @@ def run(ctx, res):
     for c in gen_random(ctx, nrand, E):
         batch.append(c)
         if len(batch) >= 4000:
+            evaluate(ctx, batch, res)
+            batch = []
+    if batch:
+        evaluate(ctx, batch, res)
+    evaluate(ctx, list(gen_caller_sequences(ctx, E, ctx.n(6, 60))), res)
+    batch = []
+    for c in gen_random_sequences(ctx, ctx.n(400, 6000), E):
+        batch.append(c)
+        if len(batch) >= 2000:
             evaluate(ctx, batch, res)
             batch = []
     if batch:
